@@ -171,7 +171,7 @@ def cache_dir():
     if not os.path.isdir(d):
         with Lock("evict"):
             olds = sorted((p for p in glob.glob(os.path.join(CACHE, "repo-*")) if p != d), key=os.path.getmtime)
-            for old in olds[:-3]:          # keep the three most recently used trees besides this one
+            for old in olds[:-12]:         # keep the twelve most recently used trees besides this one
                 shutil.rmtree(old, ignore_errors=True)
             os.makedirs(d, exist_ok=True)
     else:
@@ -398,6 +398,7 @@ def corpus_pipeline(family, n, sd, tags="", l2=False):
                    samples=[{"grammar": s["text"].split("}\n\n", 1)[-1], "inputs": [x.get("r", x.get("b")) for x in s["inputs"][:6]],
                              "optsets": s["optsets"]} for s in scs[:3]],
                    tlc=[ginfo, jinfo])
+        os.makedirs(os.path.dirname(path), exist_ok=True)
         with open(path + ".tmp", "w") as fh:
             json.dump(res, fh)
         os.replace(path + ".tmp", path)
@@ -475,6 +476,7 @@ def set_pipeline(family, n, sd, u, k):
         res = dict(verdicts=mis, histories=nh, steps=sum(x["steps"] for x in stats), nontrivial=sum(x["nontrivial"] for x in stats),
                    samples=sample, tlc=[dict(step="gen", states=g["states"], wall=round(g["wall"], 1)), dict(step="judge", states=j["states"], wall=round(j["wall"], 1))])
         shutil.rmtree(work, ignore_errors=True)
+        os.makedirs(os.path.dirname(path), exist_ok=True)
         with open(path + ".tmp", "w") as fh:
             json.dump(res, fh)
         os.replace(path + ".tmp", path)
@@ -494,6 +496,7 @@ def model_check(module, cfg, timeout=1800, expect_ok=True):
                    tail=r["out"][-1500:] if not ok else "")
         if expect_ok and not ok:
             raise Infra(f"L0 model check {cfg} failed (specification error, not a verdict about the code):\n" + r["out"][-3000:])
+        os.makedirs(os.path.dirname(key), exist_ok=True)
         with open(key, "w") as fh:
             json.dump(res, fh)
         return res
@@ -529,6 +532,7 @@ def l0_pegvm(family, n, sd, maxin=60):
         res = dict(family=family, scenarios=len(scs), states=r["distinct"], transitions=r["states"], wall=round(r["wall"], 1),
                    actions=acts, actions_never_taken=sorted(a for a, c in acts.items() if c == 0))
         shutil.rmtree(work, ignore_errors=True)
+        os.makedirs(os.path.dirname(key), exist_ok=True)
         with open(key, "w") as fh:
             json.dump(res, fh)
         return res
@@ -538,7 +542,7 @@ def l0_pegvm(family, n, sd, maxin=60):
 # front-end harness: a copy of the repository's generated front end (peg.peg.go, package main)
 # linked with harness/fe/fe_main.go.txt
 
-def build_fe(variant="", frontend_src=None):
+def build_fe(variant="", frontend_src=None, tags=""):
     """variant names the build; frontend_src: path of the peg.peg.go to link (default: the checked-in one)."""
     out = os.path.join(cache_dir(), "fe" + ("-" + variant if variant else "") + "-" + harness_hash())
     with Lock("build-fe-" + variant):
@@ -551,10 +555,11 @@ def build_fe(variant="", frontend_src=None):
         if src.count(marker) != 1:
             raise Infra("cannot locate the embedded *tree.Tree in the front end's parser struct")
         open(os.path.join(d, "peg.peg.go"), "w").write(src.replace(marker, "\t*LogTree\n") + "\nvar _ = tree.New // keeps the import used\n")
-        shutil.copy(os.path.join(VERIF, "harness", "fe", "fe_main.go.txt"), os.path.join(d, "fe_main.go"))
+        for part in ("fe_main", "fe_gate", "fe_nogate"):
+            shutil.copy(os.path.join(VERIF, "harness", "fe", part + ".go.txt"), os.path.join(d, part + ".go"))
         with open(os.path.join(d, "go.mod"), "w") as fh:
             fh.write(f"module fe\n\ngo 1.25\n\nrequire github.com/pointlander/peg v0.0.0\n\nreplace github.com/pointlander/peg => {REPO}\n")
-        r = subprocess.run(["go", "build", "-o", out + ".tmp", "."], cwd=d, env=go_env(), capture_output=True, text=True)
+        r = subprocess.run(["go", "build"] + (["-tags", tags] if tags else []) + ["-o", out + ".tmp", "."], cwd=d, env=go_env(), capture_output=True, text=True)
         if r.returncode != 0:
             raise Infra("building the front-end harness failed (does the change compile?):\n" + r.stdout + r.stderr)
         os.replace(out + ".tmp", out)
@@ -611,6 +616,7 @@ def syntax_pipeline(n, sd, mutations):
                    samples=[dict(style=s["style"], text=s["text"].split("}", 1)[-1][:300]) for s in scs[:4]],
                    tlc=[ginfo, dict(step="judge", wall=round(j["wall"], 1))])
         shutil.rmtree(work, ignore_errors=True)
+        os.makedirs(os.path.dirname(key), exist_ok=True)
         with open(key, "w") as fh:
             json.dump(res, fh)
         return res
@@ -637,6 +643,65 @@ def l0_optimizer(n, sd, maxin=200):
         res = dict(scenarios=len(scs), states=r["distinct"], transitions=r["states"], wall=round(r["wall"], 1),
                    pinned_rules_refuted="Invariant Sound is violated" in p["out"])
         shutil.rmtree(work, ignore_errors=True)
+        os.makedirs(os.path.dirname(key), exist_ok=True)
+        with open(key, "w") as fh:
+            json.dump(res, fh)
+        return res
+
+
+def sched_pipeline(n, sd, nrandom):
+    """L3 for C09: gate-hook replay of TLC-generated interleavings of the two analysis goroutines."""
+    key = os.path.join(cache_dir(), f"sched_{n}_{sd}_{nrandom}_{harness_hash()}.json")
+    with Lock("sched"):
+        if os.path.exists(key):
+            with open(key) as fh:
+                return json.load(fh)
+        scs, _ = generate("diag", n, sd)
+        scs2, _ = generate("switch", max(4, n // 3), sd)
+        texts = [s["text"] for s in scs] + [s["text"] for s in scs2]
+        fe = build_fe("gate", tags="verif")
+        work = scratch("verif-sched-")
+        def run(records, name):
+            inp, outp = os.path.join(work, name + ".in"), os.path.join(work, name + ".out")
+            with open(inp, "w") as fh:
+                for r in records:
+                    fh.write(json.dumps(r) + "\n")
+            r = subprocess.run([fe, "-gate", "-in", inp, "-out", outp], capture_output=True, text=True, timeout=3600)
+            if r.returncode != 0:
+                raise Infra("gate replay failed (is the gate hook present in /repo?):\n" + r.stdout[-1500:] + r.stderr[-1500:])
+            return read_ndjson(outp)
+        free = run([dict(id=i + 1, text=t, scheds=[]) for i, t in enumerate(texts)], "free")
+        counts = os.path.join(work, "counts.ndjson")
+        usable = [o for o in free if o["runs"][0]["panic"] == "" and o["runs"][0]["ncount"] + o["runs"][0]["nrec"] > 0]
+        with open(counts, "w") as fh:
+            for o in usable:
+                fh.write(json.dumps(dict(id=o["id"], nc=o["runs"][0]["ncount"], nr=o["runs"][0]["nrec"])) + "\n")
+        sfile = os.path.join(work, "scheds.ndjson")
+        g = run_tlc("SchedIO", "SchedIO.cfg", env=dict(SCHED_MODE="gen", SCHED_IN=counts, SCHED_OUT=sfile, SCHED_SEED=sd, SCHED_N=nrandom), workers=1)
+        scheds = {x["id"]: x["scheds"] for x in read_ndjson(sfile)}
+        replay = run([dict(id=o["id"], text=texts[o["id"] - 1], scheds=[[]] + scheds[o["id"]]) for o in usable], "replay")
+        jin = os.path.join(work, "judge.in")
+        with open(jin, "w") as fh:
+            for o in replay:
+                fh.write(json.dumps(dict(id=o["id"], runs=o["runs"])) + "\n")
+        vfile = os.path.join(work, "verdict.ndjson")
+        j = run_tlc("SchedIO", "SchedIO.cfg", env=dict(SCHED_MODE="judge", SCHED_IN=jin, SCHED_OUT=vfile, SCHED_SEED=sd, SCHED_N=nrandom), workers=1, timeout=3600)
+        recs = read_ndjson(vfile)
+        stats = [x for x in recs if x["kind"] == "stat"]
+        if len(stats) != len(replay):
+            raise Infra("schedule judge did not judge every grammar")
+        if any(x["kind"] == "infra" for x in recs):
+            raise Infra("a replayed schedule stalled (machine overloaded?): " + json.dumps([x for x in recs if x["kind"] == "infra"][:2]))
+        mis = [x for x in recs if x["kind"] == "mis"]
+        for m in mis:
+            m["text"] = texts[m["id"] - 1]
+            m["got"] = json.loads(json.dumps(m["got"])[:3000]) if len(json.dumps(m["got"])) <= 3000 else json.dumps(m["got"])[:3000]
+        res = dict(verdicts=mis, grammars=len(replay), schedules=sum(x["runs"] for x in stats), steps=sum(x["steps"] * x["runs"] for x in stats),
+                   warned=sum(1 for x in stats if x["warned"]),
+                   sample=dict(grammar=texts[usable[0]["id"] - 1].split("}\n\n", 1)[-1], schedule="".join(scheds[usable[0]["id"]][4]) if scheds[usable[0]["id"]][4:] else ""),
+                   tlc=[dict(step="gen", wall=round(g["wall"], 1)), dict(step="judge", wall=round(j["wall"], 1))])
+        shutil.rmtree(work, ignore_errors=True)
+        os.makedirs(os.path.dirname(key), exist_ok=True)
         with open(key, "w") as fh:
             json.dump(res, fh)
         return res
